@@ -39,7 +39,7 @@ TIERS = {
         symbolic=True),
     "thorough": dict(
         vector=[dict(MaxDepth=6, PointIdx={1}, Octants={1, 6}, PartnerIdx=4, Scales={2}),
-                dict(MaxDepth=5, PointIdx={1, 5}, Octants={1, 4, 6, 7}, PartnerIdx=4, Scales={1, 2, 4}),
+                dict(MaxDepth=5, PointIdx={1, 5}, Octants={1, 4, 6, 7}, PartnerIdx=4, Scales={2, 4}),
                 dict(MaxDepth=4, PointIdx={1, 2, 3, 4, 5, 6, 7, 8, 9, 10, 11, 12}, Octants={2, 3, 5, 8}, PartnerIdx=1, Scales={3, 7}),
                 dict(MaxDepth=4, PointIdx={13, 14, 15, 16}, Octants={1, 2, 3, 4, 5}, PartnerIdx=2, Scales={2, 5})],
         field=[dict(MaxDepth=5, PointIdx={1, 5}, Octants={1, 4, 6, 7}, PartnerIdx=2, Scales=set()),
@@ -253,7 +253,8 @@ def observe_field(ctx, where, field, cart, repr_, obs):
 
 
 def replay_group(group):
-    """group = dict(obj, start, a, b, ctor, paths=[(index, path)]) -> (problems, outside, steps, records)"""
+    """group = dict(obj, start, a, b, ctor, nodes={prefix of (act, arg): expected step}) ->
+    (problems [(prefix, clause, what)], outside, steps, records)"""
     _init()
     ctx = _Ctx()
     obj, start = group["obj"], group["start"]
@@ -263,18 +264,16 @@ def replay_group(group):
         with time_limit(STEP_SECONDS):
             if obj == "vector":
                 state = (make_vector(cart_a, start["repr"]), make_vector(b, start["repr"]))
-                rec0 = observe_vector(ctx, (-1, 0), state[0], state[1], start["repr"], start["obs"])
+                rec0 = observe_vector(ctx, (), state[0], state[1], start["repr"], start["obs"])
             else:
                 state = make_field(b, start["repr"], group["ctor"])
-                rec0 = observe_field(ctx, (-1, 0), state, cart_a, start["repr"], start["obs"])
+                rec0 = observe_field(ctx, (), state, cart_a, start["repr"], start["obs"])
         ctx.observed[()] = rec0
-        # trie of the paths
-        trie = {}
-        for idx, path in group["paths"]:
-            node = trie
-            for depth, step in enumerate(path):
-                key = (step["act"], step["arg"])
-                node = node.setdefault(key, {"step": step, "idx": idx, "depth": depth, "next": {}})["next"]
+        # tree of the behaviours
+        trie, index = {}, {(): None}
+        for prefix in sorted(group["nodes"], key=len):
+            parent = trie if len(prefix) == 1 else index[prefix[:-1]]["next"]
+            index[prefix] = parent[prefix[-1]] = {"step": group["nodes"][prefix], "prefix": prefix, "next": {}}
         if not ctx.problems:
             _walk(ctx, group, state, trie, ())
     except HardTimeout:
@@ -348,7 +347,7 @@ def _one_step(ctx, group, state, step, where, act, arg, prefix):
 def _walk(ctx, group, state, trie, prefix):
     for key, node in trie.items():
         step = node["step"]
-        where = (node["idx"], node["depth"] + 1)
+        where = node["prefix"]
         act, arg = key
         ctx.steps += 1
         before = len(ctx.problems)
@@ -383,20 +382,27 @@ def _acts(path):
 
 
 def _group_cases(cases, ctors):
+    """Emitted states -> groups sharing a start; nodes = {prefix of (act, arg): expected step after it}."""
     groups = {}
-    for idx, case in enumerate(cases):
+    for case in cases:
         a, b = case["start"]["a"], case["start"]["b"]
         on_axis = case["obj"] == "vector" and a[0] == 0 and a[1] == 0 and a[2] != 0
         if not (is_pythagorean(a) or on_axis) or (case["obj"] == "vector" and not is_pythagorean(b)):
             raise RuntimeError(f"the model emitted a non-Pythagorean point {a} {b}")
+        prefix = tuple((x[0], x[1]) for x in case["acts"])
         for ctor in ctors if case["obj"] == "field" else ("-",):
             key = (case["obj"], case["start"]["repr"], tuple(a), tuple(b), ctor)
-            g = groups.setdefault(key, dict(obj=case["obj"], start=case["start"], a=a, b=b, ctor=ctor, paths=[]))
-            g["paths"].append((idx, case["path"]))
+            g = groups.setdefault(key, dict(obj=case["obj"], start=case["start"], a=a, b=b, ctor=ctor, nodes={}))
+            g["nodes"][prefix] = case["last"]
     out = list(groups.values())
     for gid, g in enumerate(out):
         g["gid"] = gid
     return out
+
+
+def steps_of(group, prefix):
+    """The expected steps along a prefix."""
+    return [group["nodes"][tuple(prefix[:k])] for k in range(1, len(prefix) + 1)]
 
 
 def _consts(c, obj):
@@ -422,8 +428,9 @@ def run_tlc_configs(run, sc, tier):
     for i, (label, obj, c) in enumerate(labels):
         res, res2 = results[2 * i], results[2 * i + 1]
         run.add_tlc(res, f"model check {label}: {INVARIANTS + PROPERTIES}, bounds {json.dumps({k: sorted(v) if isinstance(v, set) else v for k, v in c.items()})}")
-        emitted[label] = (obj, res2.printed)
-        run.coverage.setdefault("paths_emitted", {})[label] = len(res2.printed)
+        emitted[label] = (obj, res2.printed, c["MaxDepth"])
+        res2.output = ""
+        run.coverage.setdefault("paths_emitted", {})[label] = sum(1 for x in res2.printed if len(x["acts"]) == c["MaxDepth"])
     return emitted
 
 
@@ -448,34 +455,35 @@ def main() -> int:
     with Scratch() as sc:
         emitted = run_tlc_configs(run, sc, tier)
         all_groups = []
-        for label, (obj, cases) in emitted.items():
+        for label in list(emitted):
+            obj, cases, depth = emitted.pop(label)
             groups = _group_cases(cases, ("lambda", "expr"))
+            del cases
             for g in groups:
                 g["label"] = label
-            all_groups.append((label, cases, groups))
+            all_groups.append((label, depth, groups))
         trace_records = []
         with make_pool() as pool:
-            for label, cases, groups in all_groups:
+            for label, depth, groups in all_groups:
                 by_gid = {g["gid"]: g for g in groups}
                 steps = 0
                 for gid, problems, outside, nsteps, records in pmap(pool, replay_group, groups, chunk=1):
                     g = by_gid[gid]
                     steps += nsteps
-                    run.traces += len(g["paths"])
-                    for idx, path in g["paths"][:1]:
+                    leaves = [p for p in g["nodes"] if len(p) == depth]
+                    run.traces += len(leaves)
+                    for leaf in leaves[:1]:
                         run.sample({"object": g["obj"], "start": g["start"]["repr"], "a": g["a"], "b": g["b"],
-                                    "path": _acts(path), "model_after_last_step": path[-1]["obs"]})
+                                    "path": _acts(steps_of(g, leaf)), "model_after_last_step": g["nodes"][leaf]["obs"]})
                     for reason, n in outside.items():
                         run.outside(reason, n)
-                    paths = dict(g["paths"])
-                    for (idx, stepno), clause, what in sorted(problems, key=lambda pr: (pr[0][1], pr[0][0])):
-                        path = paths.get(idx, [])
-                        prefix = _acts(path[:stepno])
-                        key = f"{g['obj']} start={g['start']['repr']} a={g['a']} b={g['b']} ctor={g['ctor']} path=[{prefix}]: {clause}"
+                    for prefix, clause, what in sorted(problems, key=lambda pr: len(pr[0])):
+                        path = steps_of(g, prefix)
+                        key = f"{g['obj']} start={g['start']['repr']} a={g['a']} b={g['b']} ctor={g['ctor']} path=[{_acts(path)}]: {clause}"
                         report(run, key, what, {"obj": g["obj"], "start": g["start"], "a": g["a"], "b": g["b"],
-                                                  "ctor": g["ctor"], "path": path[:max(stepno, 0)]})
-                    for idx, path in g["paths"]:
-                        run.count(f"{label}/{gid}/{idx}")
+                                                "ctor": g["ctor"], "path": path})
+                    for leaf in leaves:
+                        run.count(f"{label}/{gid}/{_acts(steps_of(g, leaf))}")
                     trace_records.append((g, records))
                 run.coverage.setdefault("real_steps_executed", {})[label] = steps
         from . import c11_trace
@@ -526,7 +534,9 @@ def replay_file(path: str) -> int:
         symbolic_round_trips(run)
         bad = [v["what"] for v in run.violations]
     else:
-        group = dict(obj=c["obj"], start=c["start"], a=c["a"], b=c["b"], ctor=c["ctor"], paths=[(0, c["path"])], gid=0)
+        acts = [(st["act"], st["arg"]) for st in c["path"]]
+        group = dict(obj=c["obj"], start=c["start"], a=c["a"], b=c["b"], ctor=c["ctor"], gid=0,
+                     nodes={tuple(acts[:k + 1]): st for k, st in enumerate(c["path"])})
         _, problems, _, _, records = replay_group(group)
         bad = [f"{clause}: {what}" for _, clause, what in problems]
         from . import c11_trace
